@@ -155,7 +155,8 @@ class World:
         self.cfg = cfg
         self.res = res
         self.problems = problems
-        problems._pretty_numbers = bool(cfg.get("pretty0", True))
+        self.pretty = bool(cfg.get("pretty0", True))
+        problems.use_pretty_numbers(self.pretty)
         if cfg.get("bias_rate", 0) > 0:
             self.stream = BiasedRandom(cfg["rseed"], cfg["bias_rate"])
             problems.random = self.stream
@@ -177,6 +178,7 @@ class World:
         fs = []
         if op[0] == "pretty":
             P.use_pretty_numbers(bool(op[1]))
+            self.pretty = bool(op[1])
             st["fault.pretty_mode_toggle"] += 1
             self.toggles += 1
             self.res.events.append(f"pretty {op[1]}")
@@ -194,7 +196,7 @@ class World:
             st["probe.call_on_shared_unreseeded_stream"] += 1
         self.calls += 1
         st["calls." + name] += 1
-        mode = "pretty" if P._pretty_numbers else "plain"
+        mode = "pretty" if self.pretty else "plain"
         st["mode." + mode] += 1
         if self.biased:
             st["fault.biased_stream_session_call"] += 1
